@@ -60,10 +60,7 @@ def make_cases(chk, r, n_random, testdata=TESTDATA, corpus_prop=None, null_order
     made = 0
     while made < n_random and tries < n_random * 3:
         tries += 1
-        m = embgen.gen_module(r)
-        if made < null_order_modules:
-            m.text = m.text.replace('[$default byte_order: "%s"]\n' % m.byte_order, "", 1)
-            m.features["no_default_byte_order"] += 1
+        m = embgen.gen_module(r, default_byte_order=made >= null_order_modules)
         c = Case("random/%d" % made, m.text, gen=m)
         cases.append(c)
         made += 1
